@@ -11,7 +11,13 @@ import (
 
 // Lock is the C03 monitor: non-equivocation and commit lock, decided offline
 // over every honest node's outgoing message history.
-type Lock struct{ Base }
+type Lock struct {
+	Base
+	cu catchUp
+}
+
+// Event applies the online part: the catch-up rule for restarted nodes.
+func (m *Lock) Event(c *vnet.Cluster, e *vnet.Event) { m.cu.rule(&m.Base, c, e) }
 
 type lockState struct {
 	height     uint32
@@ -24,13 +30,23 @@ type lockState struct {
 }
 
 func (m *Lock) End(c *vnet.Cluster) {
+	// The oracle applies to every incarnation of an honest node separately: a node that restarted
+	// with empty consensus state is a faulty node as far as its earlier statements are concerned,
+	// but from the restart on it has to keep the discipline again.
 	st := map[int]*lockState{}
+	restarted := map[int]bool{}
 	for _, e := range c.Trace {
 		if e.Node < 0 {
 			continue
 		}
 		n := c.Nodes[e.Node]
-		if !honestOracleNode(n) {
+		if n.Role != vnet.Honest {
+			continue
+		}
+		if e.Kind == vnet.KRestart {
+			delete(st, n.ID)
+			restarted[n.ID] = true
+			m.inc("incarnations-after-restart")
 			continue
 		}
 		s := st[n.ID]
@@ -102,6 +118,11 @@ func (m *Lock) End(c *vnet.Cluster) {
 				for _, q := range rm.Commits {
 					if q.Idx == p.Idx {
 						m.inc("own-commits-in-recovery")
+						if s.commit == nil && restarted[n.ID] {
+							// a (pre)commit of an earlier incarnation that came back from the peers: from now on it is what this incarnation has said
+							s.commit = q.Clone()
+							m.inc("own-commits-readopted-after-restart")
+						}
 						if s.commit == nil || s.commit.Hash() != q.Hash() {
 							m.fail(c, "recovery-commit-differs", "n%d recovery message embeds own commit [%s] that differs from the original", n.ID, q.Short())
 						}
@@ -110,6 +131,10 @@ func (m *Lock) End(c *vnet.Cluster) {
 				for _, q := range rm.PreCommits {
 					if q.Idx == p.Idx {
 						m.inc("own-precommits-in-recovery")
+						if s.preCommit == nil && restarted[n.ID] {
+							s.preCommit = q.Clone()
+							m.inc("own-precommits-readopted-after-restart")
+						}
 						if s.preCommit == nil || s.preCommit.Hash() != q.Hash() {
 							m.fail(c, "recovery-precommit-differs", "n%d recovery message embeds own pre-commit [%s] that differs from the original", n.ID, q.Short())
 						}
